@@ -632,10 +632,13 @@ def work_2d(item):
         Y = np.empty(2, dtype=object)
         Y[0], Y[1] = SReal(y), K(b2[-1])
         (e1, e2), (f1, f2) = tensor_pairs(ders)
-        out['cross'] = sp.eval(X, Y, e1, e2)
-        z = np.empty((2, 2), dtype=object)
+        Y3 = np.empty(3, dtype=object)          # the tensor grid is not square: 2 x 3 points
+        Y3[0], Y3[1], Y3[2] = SReal(y), K(b2[-1]), K(b2[0])
+        out['cross'] = sp.eval(X, Y3, e1, e2)
+        z = np.empty((2, 3), dtype=object)
         z[0, 0], z[0, 1], z[1, 0], z[1, 1] = SReal(z3.Real('g1')), K(Fr(-5, 3)), K(Fr(11, 7)), SReal(z3.Real('g1')) * 2      # arbitrary values on entry
-        sp.eval_vector(X, Y, z, f1, f2)
+        z[0, 2], z[1, 2] = K(Fr(13, 9)), SReal(z3.Real('g1')) - 1
+        sp.eval_vector(X, Y3, z, f1, f2)
         out['inplace'] = z
         # scattered-point in-place kernels ({nu,cu}_eval_spline_2d_vector; not reachable through Spline2D): points (x,y) and
         # (a, b_end), output array holding arbitrary values on entry (g0 symbolic, 7/3)
@@ -699,8 +702,20 @@ def work_2d(item):
             checks.append(((name, 0, 1), Z[0, 1], oracle(C, x, K(b2[-1]), e1, e2)))
             checks.append(((name, 1, 0), Z[1, 0], oracle(C, K(b1[0]), y, e1, e2)))
             checks.append(((name, 1, 1), Z[1, 1], oracle(C, K(b1[0]), K(b2[-1]), e1, e2)))
+            if np.shape(Z) != (2, 3):
+                res['obligations'] += 1
+                res['violations'].append(('eval2d:shape', 'tensor-grid entry point %s on 2 x 3 points returns shape %s %r' % (name, np.shape(Z), item[:3]), dict(kind='2dshape', item=str(item[:4]))))
+                continue
+            checks.append(((name, 0, 2), Z[0, 2], oracle(C, x, K(b2[0]), e1, e2)))
+            checks.append(((name, 1, 2), Z[1, 2], oracle(C, K(b1[0]), K(b2[0]), e1, e2)))
         for name, got, orc in checks:
             res['obligations'] += 1
+            if got is None:
+                # an output position the entry point never wrote (allocated, not assigned): decided on the float code at a point of the path
+                if ctx.check() == 'sat' and confirm_2d(m, item, ctx.model(), st, name, res):
+                    continue
+                res['inconclusive'].append('2d output %r never written, not reproduced in floats %r' % (name, item[:4]))
+                continue
             diff = toreal(zt(got)) - toreal(zt(orc))
             r, mdl = decide(ctx, diff != 0, res, '2d')
             if r == 'unsat':
@@ -745,7 +760,7 @@ def confirm_2d(m, item, mdl, st, name, res):
     else:
         e1, e2 = tensor_pairs(ders)[0 if ep == 'cross' else 1]
         px = xv if i0 == 0 else b1[0]
-        py = yv if i1 == 0 else b2[-1]
+        py = [yv, b2[-1], b2[0]][i1]
     numenv.disable()
     try:
         B1, B2 = float_space(m, d1, per1, b1, path == 'cu'), float_space(m, d2, per2, b2, path == 'cu')
@@ -761,11 +776,13 @@ def confirm_2d(m, item, mdl, st, name, res):
                 fn(X, Y, B1.knots, d1, B2.knots, d2, sp.coeffs, z, e1, e2)
                 got = float(z[i0])
             elif ep == 'cross':
-                got = float(sp.eval(X, Y, e1, e2)[i0, i1])
+                Y3 = np.array([float(yv), float(b2[-1]), float(b2[0])])
+                got = float(sp.eval(X, Y3, e1, e2)[i0, i1])
             else:
+                Y3 = np.array([float(yv), float(b2[-1]), float(b2[0])])
                 g1 = float(Fr(symx.model_value(mdl, SReal(z3.Real('g1')))))
-                z = np.array([[g1, -5.0 / 3.0], [11.0 / 7.0, 2 * g1]])
-                sp.eval_vector(X, Y, z, e1, e2)
+                z = np.array([[g1, -5.0 / 3.0, 13.0 / 9.0], [11.0 / 7.0, 2 * g1, g1 - 1]])
+                sp.eval_vector(X, Y3, z, e1, e2)
                 got = float(z[i0, i1])
     except Exception as e:
         got = e
